@@ -85,7 +85,7 @@ def run(oc, tier, seed, model_available, escalate):
         rc, stats, out, txt = eu.correct(P, inp2, ecc, os.path.join(d, "out"))
         want = (len(tree), 0, 0, 0, 0, 0)
         if rc != "0" or stats != want or out:
-            oc.violations.append({"input": {"params": P.describe(), "tree": {k: (v.hex() if len(v) < 200 else "<%d bytes>" % len(v)) for k, v in tree.items()},
+            oc.violations.append({"input": {"params": P.describe(), "tree": {k: v.hex() for k, v in tree.items()},
                                             "single_file_input": single, "relocated": relocated},
                                   "impl": {"exit": rc, "stats": stats, "outputs": sorted(out)},
                                   "required": {"exit": "0", "stats": want, "outputs": []},
